@@ -393,7 +393,8 @@ VALUES = {
            FN(**{"raise": ["KeyboardInterrupt", []]}), FN(**{"raise": ["SystemExit", [1]]}),
            FN(warn=[["DeprecationWarning", "old"]], ret=1), FN(warn=[["UserWarning", "hm"]], ret=1),
            FN(warn=[["DeprecationWarning", "old"], ["DeprecationWarning", "older"]])],
-    "path": [P("f.txt"), P("empty"), P("d"), P("d/x"), P("link"), P("missing"), P("t.tar"), P("ro"), P("d/../f.txt")],
+    "path": [P("f.txt"), P("empty"), P("d"), P("d/x"), P("link"), P("missing"), P("t.tar"), P("ro"), P("d/../f.txt"),
+             P("dlink/../inner.txt"), P("d/inner.txt"), P("dlink/../f.txt")],
     "misc": [None, True, S0, S1, {"$": "tuple", "v": [1, 2]}, C("ValueError")],
 }
 ANY = ([["Always"], ["Never"], ["Is", None], ["Is", S0], ["Is", True], ["IsInstance", ["int"]], ["IsInstance", ["str", "list"]],
@@ -424,7 +425,8 @@ LEAVES = {
            ["Warnings", ["MatchesListwise", [["WarningMessage", "UserWarning", ["Equals", "hm"]]]]]],
     "path": [["PathExists"], ["DirExists"], ["FileExists"], ["DirContains", ["x", "y"]], ["DirContains", ["x"]], ["DirContains", []],
              ["FileContains", "hello"], ["FileContains", ""], ["HasPermissions", "0644"], ["HasPermissions", "0400"],
-             ["SamePath", P("f.txt")], ["SamePath", P("d/../d")], ["SamePath", P("nowhere")], ["TarballContains", ["a", "b"]],
+             ["SamePath", P("f.txt")], ["SamePath", P("d/../d")], ["SamePath", P("nowhere")], ["SamePath", P("d/inner.txt")],
+             ["SamePath", P("dlink/../inner.txt")], ["TarballContains", ["a", "b"]],
              ["TarballContains", ["a"]]],
 }
 EDGE = [["Contains", 1], ["HasLength", 2], ["MatchesAll", []], ["MatchesAny", []], ["MatchesAll", [], True], ["Not", ["MatchesAny", []]],
@@ -548,6 +550,10 @@ def make_scratch():
     for name in ("x", "y"):
         open(os.path.join(SCRATCH, "d", name), "w").close()
     os.symlink("f.txt", os.path.join(SCRATCH, "link"))
+    # a symlinked directory: `dlink/..` is the parent of what the link POINTS to (d/sub/..  = d), not the scratch directory
+    os.mkdir(os.path.join(SCRATCH, "d", "sub"))
+    open(os.path.join(SCRATCH, "d", "inner.txt"), "w").close()
+    os.symlink(os.path.join("d", "sub"), os.path.join(SCRATCH, "dlink"))
     os.mkdir(os.path.join(SCRATCH, "src"))
     with tarfile.open(os.path.join(SCRATCH, "t.tar"), "w") as t:
         for name in ("a", "b"):
